@@ -509,6 +509,80 @@ def t_panic_builtin(rng, T=None):
     return Snip("panic_builtin<%d>" % n, d, b, ["panic-builtin"], panics=True)
 
 
+def t_float_pressure(rng, F):
+    """many float values live across calls (every xmm register is caller-saved: they all go through stack slots)"""
+    n = rng.randint(6, 12)
+    d = ["fn mix@(a: %s, b: %s, c: i32) -> %s { if c %% 2 == 0 { return a * b + 1.0; } return a - b; }" % (F, F, F),
+         "fn show@(k: i32, v: %s) -> %s { io::Println(k, v); return v / 2.0; }" % (F, F)]
+    b = ["let v%d: %s = %s;" % (i, F, rng.choice(F_POOL[F])) for i in range(n)]
+    b.append("let acc: %s = 0.0; let k: i32 = 0;" % F)
+    b.append("while k < %d {" % rng.randint(2, 5))
+    for i in range(n):
+        j = rng.randrange(n)
+        b.append("  v%d = mix@(v%d, v%d, k + %d);" % (i, i, j, rng.randint(0, 3)))
+        if rng.random() < 0.4:
+            b.append("  acc = acc + show@(k, v%d);" % i)
+    b.append("  k += 1; }")
+    b.append("io::Println(%s, acc);" % ", ".join("v%d" % i for i in range(n)))
+    b.append("let w: %s = %s; io::Println(w, (w as f32), (w as f64));" % (F, " + ".join("v%d" % i for i in range(min(n, 6)))))
+    return Snip("float_pressure<%s>" % F, "\n".join(d), b, ["float-spill:" + F, "float-cast-f32-f64"])
+
+
+def t_big_struct(rng, T):
+    k = rng.randint(4, 9)
+    d = ["type B@ struct { .N: i32, .V: [%d]%s, .T: str, .W: i64 };" % (k, T),
+         "fn mk@(n: i32) -> B@ { return { .N = n, .V = [%s], .T = \"t\" + n, .W = (n as i64) * 4294967311 } as B@; }" % ", ".join(pool(T, rng, k)),
+         "fn upd@(b: B@, v: %s) -> B@ { b.V[%d] = v; b.N += 1; return b; }" % (T, rng.randrange(k)),
+         "fn inpl@(b: &'B@, v: %s) { b.V[0] = v; b.W -= 1; }" % T,
+         "fn (b: &B@) dump() { io::Println(b.N, b.T, b.W); for i, x in b.V { io::Println(i, x); } }"]
+    v = lambda: pool(T, rng, 1)[0]
+    b = ["let x := mk@(%d);" % rng.randint(-5, 50), "let y := upd@(x, %s);" % v(), "inpl@(&'x, %s);" % v(), "x.dump(); y.dump();",
+         "let bs: []B@ = [x, y]; append(&'bs, upd@(y, %s)); for q in bs { io::Println(q.N, q.V[%d], q.T); }" % (v(), k - 1),
+         "let z := bs[-1]; z.dump();"]
+    return Snip("big_struct<%s>" % T, "\n".join(d), b, ["struct-by-value-large", "fixed-array-field", "elem:" + T])
+
+
+def t_many_params(rng, T=None):
+    """more parameters than argument registers (6 integer, 8 float on x86-64): the rest travel on the stack"""
+    n = rng.randint(9, 14)
+    ts = [rng.choice(INT_TYPES + FLOATS + ["bool", "str"]) for _ in range(n)]
+    ps = ", ".join("p%d: %s" % (i, U) for i, U in enumerate(ts))
+    nums = [i for i, U in enumerate(ts) if is_int(U)]
+    fls = [i for i, U in enumerate(ts) if is_float(U)]
+    d = ["fn many@(%s) -> f64 {" % ps,
+         "    io::Println(%s);" % ", ".join("p%d" % i for i in range(n)),
+         "    let si: i64 = 0; %s" % " ".join("si = si + (p%d as i64);" % i for i in nums if ts[i] != "u64"),
+         "    let sf: f64 = 0.0; %s" % " ".join("sf = sf + (p%d as f64);" % i for i in fls),
+         "    io::Println(si, sf);",
+         "    return sf + 1.0;", "}",
+         "fn fw@(%s) -> f64 { return many@(%s) * 2.0; }" % (ps, ", ".join("p%d" % i for i in reversed(range(n))) if len(set(ts)) == 1 else ", ".join("p%d" % i for i in range(n)))]
+    args = lambda: ", ".join(pool(U, rng, 1)[0] for U in ts)
+    b = ["io::Println(many@(%s));" % args(), "io::Println(fw@(%s));" % args()]
+    return Snip("many_params<%d>" % n, "\n".join(d), b, ["many-params", "stack-args"])
+
+
+def t_float_loop(rng, F):
+    d = ["fn sq@(x: %s) -> %s { let g: %s = x; let k: i32 = 0; while k < 30 { g = (g + x / g) / 2.0; k += 1; } return g; }" % (F, F, F),
+         "fn cnt@(lim: %s, st: %s) -> i32 { let x: %s = 0.0; let n: i32 = 0; while x < lim { x = x + st; n += 1; if n > 5000 { break; } } return n; }" % (F, F, F)]
+    b = ["io::Println(sq@(2.0), sq@(9.0), sq@(%s), sq@(0.25));" % rng.choice(["10.0", "12345.0", "0.5", "1000000.0"]),
+         "io::Println(cnt@(1.0, 0.1), cnt@(10.0, 0.3), cnt@(%s, %s));" % (rng.choice(["100.0", "3.5", "0.0"]), rng.choice(["0.7", "1.25", "33.0"])),
+         "let t: %s = 0.0; for i in 0..%d { t = t + (i as %s) * 0.5; if t > 40.0 { t = t - 40.0; } } io::Println(t);" % (F, rng.randint(5, 60), F),
+         "let xs: []%s = [%s]; let mx: %s = xs[0]; let mn: %s = xs[0]; for v in xs { if v > mx { mx = v; } if v < mn { mn = v; } } io::Println(mx, mn, mx - mn);"
+         % (F, ", ".join(pool(F, rng, 6)), F, F)]
+    return Snip("float_loop<%s>" % F, "\n".join(d), b, ["float-loop-condition:" + F, "float-compare:" + F])
+
+
+def t_str_recursion(rng, T=None):
+    d = ["fn digits@(n: i64) -> str { if n < 10 { return \"\" + n; } return digits@(n / 10) + \"\" + (n % 10); }",
+         "fn bin@(n: u32) -> str { if n < 2 { return \"\" + n; } return bin@(n / 2) + (n % 2); }",
+         "fn cntc@(s: str, c: byte, i: i32) -> i32 { if i >= len(s) { return 0; } if s[i] == c { return 1 + cntc@(s, c, i + 1); } return cntc@(s, c, i + 1); }",
+         "fn val@(s: str) -> i32 { let r: i32 = 0; for c in s { r = r * 10 + ((c as i32) - 48); } return r; }"]
+    s0 = rng.choice(["banana", "mississippi", "aaa", "xyz", "a"])
+    b = ["io::Println(digits@(%d), digits@(0), bin@(%d), bin@(4294967295));" % (rng.randint(0, 2**62), rng.randint(0, 2**32 - 1)),
+         'let s: str = "%s"; io::Println(cntc@(s, s[0], 0), cntc@(s, s[-1], 0), val@("%d"), val@(digits@(%d)));' % (s0, rng.randint(0, 99999), rng.randint(0, 2**31 - 1))]
+    return Snip("str_recursion", "\n".join(d), b, ["str-recursion", "byte-compare", "str-build"])
+
+
 ELEMS = INT_TYPES + FLOATS + ["bool", "str", "P"]
 NUMS = INT_TYPES + FLOATS
 TEMPLATES = [  # (function, parameter domain, weight)
@@ -516,7 +590,9 @@ TEMPLATES = [  # (function, parameter domain, weight)
     (t_str_concat, NUMS + ["bool", "str", "mixed"], 3), (t_str_ops, [None], 2), (t_enum, [None], 2),
     (t_match, INT_TYPES + ["str", "bool"], 2), (t_refs, NUMS + ["bool", "str"], 3), (t_cast_float_int, INT_TYPES, 3),
     (t_float_arith, FLOATS, 3), (t_int_edge, INT_TYPES, 3), (t_loops, [None], 1), (t_recursion, ["i32", "i64", "u32", "u64", "i16", "u8"], 1),
-    (t_struct, NUMS + ["bool", "str"], 2), (t_print, [None], 1), (t_union, [None], 1)]
+    (t_struct, NUMS + ["bool", "str"], 2), (t_print, [None], 1), (t_union, [None], 1),
+    (t_float_pressure, FLOATS, 2), (t_big_struct, NUMS + ["bool", "str"], 2), (t_many_params, [None], 2), (t_float_loop, FLOATS, 2),
+    (t_str_recursion, [None], 1)]
 PANIC_TEMPLATES = [(t_dyn_panic, ELEMS, 3), (t_str_panic, [None], 1), (t_div_trap, INT_TYPES, 2), (t_panic_builtin, [None], 1)]
 
 # ------------------------------------------------------------------ probes: one program per open finding / gated feature
@@ -567,13 +643,16 @@ ONESIDED = [
 fn main() {
     let a: i32? = 5;
     let b: i32? = none;
-    io::Println(a ?? 0, b ?? 7);
+    let v := a ?? 0;
+    let w := b ?? 7;
+    io::Println(v, w);
 }
 '''),
     ("result-catch", '''import "std/io";
 fn divide(a: i32, b: i32) -> str ! i32 { if b == 0 { return "division by zero"!; } return a + b; }
 fn main() {
-    io::Println(divide(10, 2) catch -1);
+    let ok := divide(10, 2) catch -1;
+    io::Println(ok);
     let f := divide(10, 0) catch e { io::Println(e); } -1;
     io::Println(f);
 }
@@ -650,9 +729,11 @@ def term_kind(r):
     return "panic-or-trap"
 
 
-def run_both(work, name, src):
-    a = common.compile_and_run(src, work, "rn_" + name, "native")
-    b = common.compile_and_run(src, work, "rw_" + name, "wasm")
+def run_both(work, name, src, timeout=25):
+    a = common.compile_and_run(src, work, "rn_" + name, "native", timeout=timeout)
+    b = common.compile_and_run(src, work, "rw_" + name, "wasm", timeout=timeout)
+    if timeout < 90 and (a.get("rc") == -9 or b.get("rc") == -9 or a.get("crc") == -9 or b.get("crc") == -9):
+        return run_both(work, name + "_t", src, timeout=120)       # a loaded machine, not a hang: once more with room
     return a, b
 
 
@@ -688,8 +769,10 @@ def gen_snip(rng, table):
 
 
 def run_family(run, work, quick):
+    import time
+    t0 = time.time()
     rng = random.Random("C02rich/%d" % run.seed)
-    n_sweep, per_sweep, n_combo = (16, 7, 12) if quick else (110, 8, 120)
+    n_sweep, per_sweep, n_combo = (16, 8, 12) if quick else (110, 8, 120)
     if os.environ.get("C02RICH_N"):
         n_sweep, n_combo = [int(x) for x in os.environ["C02RICH_N"].split(",")]
     progs = []          # (name, kind, snippets or None, src)
@@ -719,7 +802,7 @@ def run_family(run, work, quick):
 
     results = common.pmap(lambda p: run_both(work, p[0], p[3]), progs, workers=6)
     what_of = {k: w for k, w, _ in PROBES}
-    stats = {"programs": 0, "snippets": 0, "accepted_by_both": 0, "rejected_by_both": 0, "panic_or_trap_on_both": 0, "disagreements": 0}
+    stats = {"programs": 0, "snippets": 0, "snippets_reached": 0, "accepted_by_both": 0, "rejected_by_both": 0, "panic_or_trap_on_both": 0, "disagreements": 0}
     reported = 0
     rejected_both = []
     nshrink = [0]
@@ -745,6 +828,7 @@ def run_family(run, work, quick):
                 run.count("rich-feature-on-both-targets:" + feat)
             continue
         stats["snippets"] += len(sn)
+        stats["snippets_reached"] += sum(1 for t in (a.get("out") or "").split("\n") if t.startswith("#"))
         for s in sn:
             run.count("rich:" + s.name.split("<")[0])
             for f in s.feats:
@@ -779,11 +863,12 @@ def run_family(run, work, quick):
         rp["snippets"] = [s.name for s in ([culprit] if culprit else sn)]
         if culprit: rp["found_in_program"] = src
         run.violation(key, "native and wasm disagree on %s: %s" % (tname, cv), rp)
+    stats["wall_s"] = round(time.time() - t0, 1)
     run.extra["c02rich"] = dict(stats, gates=GATES, rejected_by_both=rejected_both[:5],
                                 rule="source-level templates (for-in over fixed/dynamic arrays, dynamic arrays incl. index panics, "
                                      "functions and aliasing, nested arrays, strings, enums, match, references, float<->int casts, float arithmetic "
-                                     "and printing, integer edge arithmetic, loops, recursion, structs and methods, Print/Println, unions, traps, "
-                                     "panic) x element types x edge values; sweep programs of %d snippets, compositions of 2-4" % per_sweep)
+                                     "and printing, float values live across calls, float loop conditions, integer edge arithmetic, loops, recursion, structs and "
+                                     "methods, large by-value structs, many parameters, string recursion, Print/Println, unions, traps, panic) x element types x edge values; sweep programs of %d snippets, compositions of 2-4" % per_sweep)
     return stats
 
 
@@ -807,4 +892,4 @@ if __name__ == "__main__":       # development driver: python3 c02rich.py [seed]
     st = run_family(r, common.Work(), os.environ.get("TIER", "quick") == "quick")
     print(json.dumps(st), "wall %.1fs" % (time.time() - t0))
     print(json.dumps(r.extra["c02rich"]["rejected_by_both"], indent=1)[:3000])
-    print({k: v for k, v in r.counts.items() if k.startswith("rich-")})
+    print({k: v for k, v in sorted(r.counts.items())})
